@@ -289,32 +289,29 @@ func derivesFrom(v ssa.Value, src func(ssa.Value) bool, passThrough ...string) b
 		case *ssa.BinOp:
 			return walk(x.X) || walk(x.Y)
 		case *ssa.UnOp:
-			if x.Op == token.MUL {
-				if al, ok := x.X.(*ssa.Alloc); ok {
-					for _, r := range *al.Referrers() {
-						if st, ok := r.(*ssa.Store); ok && st.Addr == ssa.Value(al) && walk(st.Val) {
+			return walk(x.X)
+		case *ssa.Alloc:
+			for _, r := range *x.Referrers() {
+				if st, ok := r.(*ssa.Store); ok && st.Addr == ssa.Value(x) && walk(st.Val) {
+					return true
+				}
+				// stores into fields / elements of the local
+				var sub *[]ssa.Instruction
+				switch a := r.(type) {
+				case *ssa.FieldAddr:
+					sub = a.Referrers()
+				case *ssa.IndexAddr:
+					sub = a.Referrers()
+				}
+				if sub != nil {
+					for _, r2 := range *sub {
+						if st, ok := r2.(*ssa.Store); ok && st.Addr == r.(ssa.Value) && walk(st.Val) {
 							return true
 						}
-						// stores into fields / elements of the local
-						var sub *[]ssa.Instruction
-						switch a := r.(type) {
-						case *ssa.FieldAddr:
-							sub = a.Referrers()
-						case *ssa.IndexAddr:
-							sub = a.Referrers()
-						}
-						if sub != nil {
-							for _, r2 := range *sub {
-								if st, ok := r2.(*ssa.Store); ok && st.Addr == r.(ssa.Value) && walk(st.Val) {
-									return true
-								}
-							}
-						}
 					}
-					return false
 				}
 			}
-			return walk(x.X)
+			return false
 		case *ssa.FieldAddr:
 			return walk(x.X)
 		case *ssa.Field:
